@@ -72,6 +72,14 @@ func extraSamples(rng *rand.Rand) (names []string, data [][]byte) {
 			add(fmt.Sprintf("ttf+%s~%d", sig, p), v)
 		}
 	}
+	// an ID3v2 tag of a known size followed by something that is not MPEG audio
+	for _, sz := range []int{0, 20, 200} {
+		for tn, tail := range map[string][]byte{"flac": []byte("fLaC\x00\x00\x00\x22"), "adts": {0xFF, 0xF1, 0x50, 0x80}, "id3": []byte("ID3\x03\x00\x00\x00\x00\x00\x0a"), "garbage": {0x07, 0x07, 0x07, 0x07}, "text": []byte("plain words")} {
+			tag := append([]byte("ID3\x03\x00\x00\x00\x00"), byte(sz>>7&0x7f), byte(sz&0x7f))
+			tag = append(tag, make([]byte, sz)...)
+			add(fmt.Sprintf("id3v2-%d+%s", sz, tn), append(tag, tail...))
+		}
+	}
 	// a Chrome extension header whose declared key / signature lengths point at bytes that are no zip
 	crx := append([]byte("Cr24\x03\x00\x00\x00\x64\x00\x00\x00\x64\x00\x00\x00"), bytes.Repeat([]byte("k"), 300)...)
 	add("crx-nozip", crx)
@@ -306,6 +314,55 @@ func monotraceMain(args []string) int {
 			binary++
 		}
 		b, _ := stdjson.Marshal(map[string]any{"ev": "mono", "sample": name, "ls": ls, "nt": nt})
+		w.Write(b)
+		w.WriteByte('\n')
+	}
+	// every short binary sample followed by the head of another sample (contradicting evidence later in the file)
+	others := []int{}
+	for i := range data {
+		if i%19 == 0 && len(data[i]) > 0 {
+			others = append(others, i)
+		}
+	}
+	nbase := len(data)
+	for i := 0; i < nbase; i++ {
+		if len(data[i]) == 0 || len(data[i]) > 64 {
+			continue
+		}
+		for _, j := range others {
+			t := data[j]
+			if len(t) > 600 {
+				t = t[:600]
+			}
+			names = append(names, names[i]+"|"+names[j])
+			data = append(data, append(append([]byte{}, data[i]...), t...))
+		}
+	}
+	// through a pipe (a non-regular *os.File): limits ascending, unlimited last
+	for i := 0; i < nbase; i += 7 {
+		d := data[i]
+		if len(d) == 0 {
+			continue
+		}
+		nt, ls := []int{}, []int{}
+		for _, l := range []int{16, 64, 3072, 1 << 20, 0} {
+			mimetype.SetLimit(uint32(l))
+			pr, pw, err := os.Pipe()
+			if err != nil {
+				break
+			}
+			go func() { pw.Write(d); pw.Close() }()
+			m, _ := mimetype.DetectReader(pr)
+			pr.Close()
+			n++
+			ch := bareChain(m)
+			v := 0
+			if len(ch) > 1 && !contains(ch, "text/plain") {
+				v = 1
+			}
+			nt, ls = append(nt, v), append(ls, l)
+		}
+		b, _ := stdjson.Marshal(map[string]any{"ev": "mono", "sample": names[i] + " via pipe", "ls": ls, "nt": nt})
 		w.Write(b)
 		w.WriteByte('\n')
 	}
